@@ -11,6 +11,7 @@ compared with TLC's expectation after *every* step.
 import os
 
 from . import common, tlc
+from .exc import exc_name
 
 KINDS = ("simple", "digraph", "bipartite")
 
@@ -125,7 +126,7 @@ def compare_views(kind, G, exp, maxn, nx=True):
         try:
             H = type(G).from_networkx(Y)
         except Exception as e:
-            return "from_networkx_other_history_%s" % type(e).__name__
+            return "from_networkx_other_history_%s" % exc_name(e)
         if kind == "bipartite":
             if (H.left_order(), H.right_order()) != (n, r):
                 return "from_networkx_other_history_order"
@@ -162,7 +163,7 @@ def replay(beh, maxn=3, nx_every_step=True):
         except tlc.MachineryError:
             raise
         except Exception as e:
-            got = type(e).__name__
+            got = exc_name(e)
         if got != st["res"]:
             return False, "step%d:%s%s:outcome_%s_expected_%s" % (k, a, tuple(map(str, args)), got, st["res"])
         why = compare_views(kind, G, st["exp"], maxn, nx=nx_every_step or k == len(h) - 1)
